@@ -4,6 +4,9 @@ import Lemmas.RateLimiterBounds
 import Lemmas.RateLimiterExec
 import Lemmas.RateLimiterInt
 import Lemmas.RateLimiterAnswers
+import Lemmas.RateLimiterContrast
+import Lemmas.RateLimiterWitness2
+import Lemmas.RateLimiterWindow
 /-! # C16 — the rate limiter never grants more than any applicable cap and never hangs
 
 Property theorems only.  The model is `Model/RateLimiter.lean`: the transition relation `RL.Step`, in which
@@ -124,6 +127,19 @@ theorem granted_le_min_cap_of_chain (c : Nat) (s : S) (h : Reachable c s) (hz : 
   show gsum p l s.glog ≤ effCap s.cap (s.chain l) (s.cap l)
   exact (le_effCap_iff _ _ _ _).mpr ⟨gsum_le_cap h hz p l, each⟩
 
+/-- **`Cap(true)` IS the smallest cap among the limiter and its ancestors** (the "smallest cap" of the property is what the
+    exported `Cap(applyParentCaps = true)` reports, and what `Use` compares the amount with): it is at most the capacity
+    of every limiter of the chain and it is the capacity of one of them; `Cap(false)` is the limiter's own capacity -/
+theorem cap_true_is_smallest_cap_of_chain (c : Nat) (s : S) (h : Reachable c s) (l : Nat) (hl : l < s.n) :
+    (∀ x ∈ s.chain l, capOf s l true ≤ s.cap x) ∧ (∃ x ∈ s.chain l, capOf s l true = s.cap x) ∧
+    capOf s l false = s.cap l := by
+  have hself := (tree h).self l hl
+  have hle := (le_effCap_iff s.cap (s.chain l) (s.cap l) (effCap s.cap (s.chain l) (s.cap l))).mp (Nat.le_refl _)
+  refine ⟨hle.2, ?_, rfl⟩
+  rcases effCap_attained s.cap (s.chain l) (s.cap l) with h' | h'
+  · exact ⟨l, hself, h'⟩
+  · exact h'
+
 /-- **no overflow** (bridge to Go's `int`; no bound such as 2^62 is assumed on the capacities): `s.capHi` is the largest
     capacity ever passed to `New` / `SetCap`.  Every capacity, every `used`, every `last` and every queued amount stays
     ≤ `capHi`; so when the capacities are Go `int`s (`capHi ≤ maxInt`, a fact of the type) all of them are in
@@ -156,6 +172,30 @@ theorem lastUsed_spec (c : Nat) (s : S) (h : Reachable c s) (x : Nat) (hx : x < 
 theorem open_is_linked (c : Nat) (s : S) (h : Reachable c s) (x : Nat) (hx : x < s.n) (ho : s.closed x = false) :
     resets s x = true :=
   open_resets (tree h) x ho x ((tree h).self x hx)
+
+/-- **LastUsed of a limiter unlinked by its own `Close`** (the reading recorded for `lastUsed_spec`): once a limiter or one
+    of its ancestors has been removed from its parent's `children` it is no longer reached by `root.reset()` — no step of
+    any goroutine changes its `last` any more (it keeps reporting the period before the `Close`), and it stays unlinked -/
+theorem unlinked_last_frozen (c : Nat) (s s' : S) (h : Reachable c s) (st : Step s s') (x : Nat) (hx : x < s.n)
+    (hu : resets s x = false) : s'.last x = s.last x ∧ resets s' x = false := by
+  have t := tree h
+  obtain ⟨y, hy, huy⟩ := (resets_false_iff s x).mp hu
+  have hne : x ≠ s.n := by omega
+  cases st <;> first
+    | exact ⟨rfl, hu⟩
+    | skip
+  · refine ⟨?_, (resets_false_iff _ x).mpr ⟨y, ?_, ?_⟩⟩
+    · simp [unlock, doNewChild, upd, hne]
+    · simpa [unlock, doNewChild, upd, hne] using hy
+    · have : y ≠ s.n := by have := (t.lt x y hy).1; omega
+      simpa [unlock, doNewChild, upd, this] using huy
+  · refine ⟨rfl, (resets_false_iff _ x).mpr ⟨y, hy, ?_⟩⟩
+    simp only [unlock, doCloseChild, upd]
+    split
+    · rfl
+    · exact huy
+  · refine ⟨?_, hu⟩
+    simp [doTickRuns, hu]
 
 /-- **exactly one answer**: every request issued so far is either still in the queue or has exactly one answer, and
     never both; requests not yet issued have none -/
@@ -354,10 +394,11 @@ theorem queued_above_lowered_cap_fails_at_tick (s : S) (r : Req) (hr : r ∈ s.w
   queued_above_lowered_chain_cap_fails_at_tick s r hr ho
     (Nat.lt_of_le_of_lt (effCap_le_own s.cap (s.chain r.lim) (s.cap r.lim)) hb)
 
-/-- `SetCap` changes nothing but the capacity (and the history of capacities) -/
-theorem setCap_effect (s : S) (hf : s.holder = .free) (l k : Nat) (hl : l < s.n) :
-    exec s (.setCap l k) = doSetCap s l k ∧ (doSetCap s l k).cap l = k ∧
-    (doSetCap s l k).waiting = s.waiting ∧ (doSetCap s l k).used = s.used := by
+/-- `SetCap(k)`, `k` any Go `int`, changes nothing but the capacity (and the history of capacities); the capacity stored
+    is `max(k, 0)` -/
+theorem setCap_effect (s : S) (hf : s.holder = .free) (l : Nat) (k : Int) (hl : l < s.n) :
+    exec s (.setCap l k) = doSetCap s l (clampCap k) ∧ (doSetCap s l (clampCap k)).cap l = clampCap k ∧
+    (doSetCap s l (clampCap k)).waiting = s.waiting ∧ (doSetCap s l (clampCap k)).used = s.used := by
   refine ⟨exec_setCap s hf l k hl, ?_, rfl, rfl⟩
   simp [doSetCap, upd]
 
@@ -476,15 +517,27 @@ theorem sum_form_of_the_test_wraps :
 
 /-- **an error only for a cause** (the converse of `immediate_errors` / `close_fails_pending` for requests that had to
     wait): in every interleaving, whichever step of whichever goroutine answers a request that is in the queue, the
-    answer is nil, or an error because its limiter IS closed at that moment (it was closed, or became closed through an
+    answer is nil — and then its limiter is open and its amount within the smallest capacity in force along its chain —
+    or an error because its limiter IS closed at that moment (it was closed, or became closed through an
     ancestor or root `Close`, while the request waited), or an error because its amount is above the smallest capacity
     then in force along its chain.  A request on a limiter that stays open, within the caps of its chain, is never
     failed. -/
 theorem queued_request_fails_only_for_cause (c : Nat) (s s' : S) (h : Reachable c s) (st : Step s s') (r : Req)
     (hr : r ∈ s.waiting) (a : Ans) (ha : (r.id, a) ∈ s'.answered) :
-    a = .ok ∨ (a = .errClosed ∧ s.closed r.lim = true) ∨
+    (a = .ok ∧ s.closed r.lim = false ∧ r.amt ≤ capOf s r.lim true) ∨ (a = .errClosed ∧ s.closed r.lim = true) ∨
     (a = .errCap ∧ s.closed r.lim = false ∧ r.amt > capOf s r.lim true) :=
   queued_answer_cause h st r hr a ha
+
+/-- **Close fails the pending requests, and nothing else happens to them** (the converse direction of
+    `close_fails_pending`): whichever step of whichever goroutine answers a request whose limiter is closed at that
+    moment — closed by its own `Close`, through an ancestor, or by root `Close` — the answer is "closed": never nil,
+    never the cap error -/
+theorem pending_on_closed_limiter_only_fails_closed (c : Nat) (s s' : S) (h : Reachable c s) (st : Step s s') (r : Req)
+    (hr : r ∈ s.waiting) (a : Ans) (ha : (r.id, a) ∈ s'.answered) (hc : s.closed r.lim = true) : a = .errClosed := by
+  rcases queued_answer_cause h st r hr a ha with k | k | k
+  · rw [hc] at k; cases k.2.1
+  · exact k.1
+  · rw [hc] at k; cases k.2.1
 
 /-- **a send on an answer channel never blocks**: the channel returned by `Use` has room for one value, and over the
     whole run — any interleaving — at most one value is ever sent on it; a request still in the queue has received
@@ -552,12 +605,133 @@ theorem use_after_root_close_fails (c : Nat) (s : S) (h : Reachable c s)
   rw [e]
   exact ⟨rfl, rfl, rfl⟩
 
+/-- **a capacity ≤ 0 grants nothing** (`max(capacity, 0)`, commit 4e94d2c; the clamp is `RL.clampCap`, applied by the
+    plans of `RL.exec` to the Go `int` the call is given): after `SetCap(k)` with ANY `k ≤ 0` — `-1`, `math.MinInt` — the
+    limiter's capacity and its `Cap(true)` are 0, and every request for a positive amount on it or on any descendant is
+    refused at once with the cap error: the limiter does not look unlimited to anybody -/
+theorem nonpositive_cap_grants_nothing (s : S) (hf : s.holder = .free) (l : Nat) (hl : l < s.n) (k : Int) (hk : k ≤ 0) :
+    let s' := exec s (.setCap l k)
+    s'.cap l = 0 ∧ capOf s' l true = 0 ∧
+    (∀ x amt, x < s'.n → l ∈ s'.chain x → 0 < amt → s'.closed x = false → exec s' (.use x amt) = answer s' .errCap) := by
+  have hz : clampCap k = 0 := by unfold clampCap; omega
+  have e : exec s (.setCap l k) = doSetCap s l 0 := by rw [exec_setCap s hf l k hl, hz]
+  simp only [e]
+  have hc : (doSetCap s l 0).cap l = 0 := by simp [doSetCap, upd]
+  refine ⟨hc, ?_, ?_⟩
+  · have := effCap_le_own (doSetCap s l 0).cap ((doSetCap s l 0).chain l) ((doSetCap s l 0).cap l)
+    show effCap _ _ _ = 0
+    omega
+  · intro x amt hx hm ha ho
+    apply use_above_chain_cap_fails_at_once (doSetCap s l 0) hf x amt hx ha ho
+    exact Or.inr ⟨l, hm, by rw [hc]; omega⟩
+
+/-- **contrast — without the clamp a hugely negative capacity looks unlimited** (`seeded/revert-c16-negative-cap`, the
+    code before commit 4e94d2c): `p.capacity - p.used` computed in machine ints for the unclamped capacity `math.MinInt`
+    and `used = 1` wraps to `MaxInt` — the ancestor seems to have all the room in the world — whereas what the code stores
+    now for that argument is 0 -/
+theorem unclamped_negative_cap_looks_unlimited :
+    leftGoZ (-9223372036854775808) 1 = 9223372036854775807 ∧ leftGoZ (-9223372036854775808) 0 < 0 ∧
+    clampCap (-9223372036854775808) = 0 := by
+  decide
+
+/-- **contrast — the cap test against the limiter's own capacity only starves a request** (`seeded/revert-c16-ancestor-cap`,
+    the code before commit 8ceae61; `RL.useOwn` / `RL.tickOwn` are `Use` and the tick with `amount > l.capacity`): root of
+    capacity 2, child of capacity 9, `Use(5)` on the child — in the variant the request is queued and NO number of ticks
+    ever answers it (it stays the only entry of the queue for ever: `every_request_answered` fails), while the code as it
+    is refuses it at once -/
+theorem own_cap_only_starves :
+    (∀ n, (iter tickOwn n (useOwn starveTree 1 5)).waiting.map (·.id) = [0] ∧
+          (iter tickOwn n (useOwn starveTree 1 5)).answered = []) ∧
+    exec starveTree (.use 1 5) = answer starveTree .errCap := by
+  refine ⟨fun n => ?_, ?_⟩
+  · have h := starving_forever n _ starving_start
+    exact ⟨by rw [h.w]; rfl, h.a⟩
+  · apply exec_use_toobig starveTree (by decide) 1 5 (by decide) (by decide) (by decide)
+    decide
+
+/-- **contrast — a grant charged to the limiter only overdraws the parent** (`seeded/own-c16-1`; `RL.useChargeOwn` is
+    `Use` without the loop `p.used += amount` over the ancestors): root of capacity 2 with two children of capacity 2, each
+    asked for 2 in the same period, no `SetCap` — both are granted, the root and its descendants have been granted 4 > 2
+    in period 0: `granted_le_cap` fails for the variant -/
+theorem charge_own_only_overdraws_parent :
+    gsum 0 0 overdrawn.glog = 4 ∧ overdrawn.cap 0 = 2 ∧ overdrawn.ticks = 0 ∧ overdrawn.setCaps = 0 ∧
+    overdrawn.answered = [(1, .ok), (0, .ok)] := by
+  decide
+
+/-- **contrast — `amount == 0` answered first grants on a closed limiter** (`seeded/revert-c16-use0-closed`, the code before
+    commit 0fbede5; `RL.useZeroFirst`): after root `Close` the variant answers `Use(0)` with nil, the code as it is with
+    "closed" (`closed_never_granted` fails for the variant) -/
+theorem zero_first_grants_on_closed :
+    ∃ s, Reachable 5 s ∧ s.closed 0 = true ∧ s.holder = .free ∧
+      (s.nextReq, Ans.ok) ∈ (useZeroFirst s 0 0).answered ∧ exec s (.use 0 0) = answer s .errClosed := by
+  refine ⟨run (init 5) [.close 0], run_reachable 5 _, by decide, by decide, by decide, ?_⟩
+  exact (immediate_errors _ (by decide) 0 0 (by decide)).2.1 (by decide) (by decide)
+
+/-- **ticks keep being served** — the hypothesis `TicksServed` of `every_request_answered` — follows from assumptions
+    about the scheduler and the passing of time only: ticks keep firing (`TicksFire`: the goroutine does not sit at its
+    `select` for ever), goroutines inside a critical section of their own are scheduled (`HoldersRun`, `DrainFair.runs`),
+    the lock is fair to the waiting ticker goroutine (`LockFair`, `DrainFair.lock`).  That the lock IS free again and
+    again while the goroutine waits for it — an API holder finishes, root `Close` marks and unlocks before it blocks on
+    `done` — is derived from the protocol (`lock_discipline`). -/
+theorem ticks_served_under_fair_scheduling (c : Nat) (run : Nat → S) (r : IsRun c run) (hr : HoldersRun run)
+    (lf : LockFair run) (df : DrainFair run) (tf : TicksFire run) : TicksServed run :=
+  ticksServed_of_fairness r hr lf df tf
+
+/-- **every request is answered**, under scheduler fairness and the passing of time only: on every infinite run — any
+    interleaving of any requests, child creations, closes and `SetCap`s — a request that is waiting leaves the queue at
+    some later instant and then has exactly one answer -/
+theorem every_request_answered_under_fair_scheduling (c : Nat) (run : Nat → S) (r : IsRun c run) (hr : HoldersRun run)
+    (lf : LockFair run) (df : DrainFair run) (tf : TicksFire run) (i id : Nat) (hw : Waiting (run i) id) :
+    ∃ j, i ≤ j ∧ ¬ Waiting (run j) id ∧ ((run j).answered.map (·.1)).count id = 1 :=
+  eventually_answered r (ticksServed_of_fairness r hr lf df tf) i id hw
+
+/-- all these assumptions are satisfiable together on a run on which something happens: root of capacity 1, `Use(1)`
+    granted, `Use(1)` waiting from instant 4, the ticker goroutine waiting for the lock at instant 5 and inside its
+    critical section at 6, the request answered nil by that tick (instant 7), then root `Close`, blocked on `done` at
+    instant 11 and returned at 12, the drain, and `Use(-1)` for ever -/
+theorem fair_run_with_a_served_tick_exists :
+    IsRun 1 witness2 ∧ HoldersRun witness2 ∧ LockFair witness2 ∧ SelectFair witness2 ∧ DrainFair witness2 ∧
+    TicksFire witness2 ∧ Waiting (witness2 4) 1 ∧ (witness2 5).tpc = .tlock ∧ (witness2 6).tpc = .tcrit ∧
+    ¬ Waiting (witness2 7) 1 ∧ (1, Ans.ok) ∈ (witness2 7).answered ∧
+    (witness2 11).cpc = .send ∧ (witness2 12).cpc = .ret := by
+  refine ⟨witness2_isRun, witness2_holdersRun, witness2_lockFair, witness2_selectFair, witness2_drainFair,
+          witness2_ticksFire, ?_, by decide, by decide, ?_, by decide, by decide, by decide⟩
+  · have : (witness2 4).waiting = [⟨0, 1, 1⟩] := rfl
+    exact ⟨⟨0, 1, 1⟩, by rw [this]; exact List.mem_singleton.mpr rfl, rfl⟩
+  · rintro ⟨r, hr, _⟩
+    have : (witness2 7).waiting = [] := by decide
+    rw [this] at hr; cases hr
+
+/-- **the window exploration is sound**: the driver's area `window` computes the set of outcomes of all interleavings of
+    the ticker goroutine with the calls that wait for the lock together with it (`RL.explore`); every final state it
+    lists is reached from the start by steps of `RL.Step`, so an outcome the check accepts is a behaviour the theorems
+    above speak about -/
+theorem window_outcomes_are_runs (fuel : Nat) (s : S) (ths : List (List Micro)) (s' : S)
+    (h : some s' ∈ explore fuel s ths) : Steps s s' :=
+  explore_sound fuel s ths s' h
+
+/-- **… and complete**: the final state of EVERY interleaving of the threads — again and again some thread whose next
+    step can move takes it, until all have finished (`RL.Interleaving`) — shorter than the fuel is in the list, and a
+    step that `enabledM` holds back would not have moved anyway; so an outcome the check rejects is not a behaviour of
+    the model under any scheduling of these calls -/
+theorem window_exploration_is_complete (n : Nat) (s s' : S) (ths : List (List Micro)) (h : Interleaving n s ths s')
+    (fuel : Nat) (hf : n < fuel) :
+    some s' ∈ explore fuel s ths ∧ (∀ t m, enabledM t m = false → micro t m = t) :=
+  ⟨explore_complete h fuel hf, micro_of_not_enabled⟩
+
 /-! non-vacuity: a concrete run (root cap 5, child cap 9 above its parent): the second `Use(3)` on the child waits
     although the child has room, is served by the tick, and `LastUsed` of the root reports 4. -/
 example :
     let s := run (init 5) [.newChild 0 9, .use 1 3, .use 1 3, .use 0 1, .tick]
     s.answered = [(1, .ok), (2, .ok), (0, .ok)] ∧ s.last 0 = 4 ∧ s.used 0 = 3 ∧ s.waiting.length = 0 ∧
     s.setCaps = 0 ∧ s.holder = .free := by
+  decide
+
+/-! capacities are whatever Go `int` the caller passes: a root made with `rate.New(-7, …)` grants nothing to its child of
+    capacity 9 until `SetCap(3)`; `SetCap(-1)` on the child shuts it again -/
+example :
+    let s := run (initGo (-7)) [.newChild 0 9, .use 1 1, .setCap 0 3, .use 1 2, .setCap 1 (-1), .use 1 1]
+    s.answered = [(2, .errCap), (1, .ok), (0, .errCap)] ∧ capOf s 1 true = 0 ∧ s.cap 0 = 3 := by
   decide
 
 /-! a schedule inside the Close-vs-tick window: the tick fires, root `Close` marks the tree while the ticker goroutine
@@ -567,6 +741,17 @@ example :
       [.tickFires, .closeLock, .closeMark, .closeUnlock, .tickLock, .tickRuns, .tickUnlock, .doneReceived,
        .drainLock, .drain, .drainUnlock]
     s.answered = [(1, .errClosed), (0, .ok)] ∧ s.tpc = .tend ∧ s.cpc = .ret ∧ s.holder = .free := by
+  decide
+
+/-! the window of the example above, explored: root `Close` against the tick the goroutine has already received, with one
+    request waiting — the tick runs first and serves it, or `Close` marks the tree first and the tick fails it; nothing
+    else -/
+example :
+    let s := run (init 2) [.use 0 2, .use 0 1]
+    let outs := (explore 64 (micro s .tickFires)
+      [[.tickLock, .tickRuns, .tickUnlock, .drainLock, .drain, .drainUnlock],
+       [.closeLock, .closeMark, .closeUnlock, .doneReceived]]).map (fun o => o.map (fun t => (t.answered, t.last 0)))
+    outs.eraseDups = [some ([(1, .ok), (0, .ok)], 2), some ([(1, .errClosed), (0, .ok)], 2)] := by
   decide
 
 end C16
